@@ -138,8 +138,15 @@ def run(prop: str, tier: str, seed: int, t0: float, args) -> int:
         "wall_s": round(wall, 2),
         "violations": len(res.violations) + (1 if (broken and not res.violations) else 0),
     }
-    (VERIF / "evidence").mkdir(exist_ok=True)
-    (VERIF / "evidence" / f"{prop}.json").write_text(json.dumps(ev, indent=1, default=repr) + "\n")
+    if lean.obligations == 0:
+        # no theorem is registered for this property (yet): the proof-level keys are left out, the exploration-style counts stand
+        ev["coverage"].pop("obligations")
+        ev["coverage"].pop("discharged")
+    if getattr(res, "programs", 0):
+        ev["coverage"]["programs"] = res.programs
+    if not args.no_lean:  # development runs without the Lean step never overwrite the evidence
+        (VERIF / "evidence").mkdir(exist_ok=True)
+        (VERIF / "evidence" / f"{prop}.json").write_text(json.dumps(ev, indent=1, default=repr) + "\n")
     for l in out_lines:
         print(l, flush=True)
     print(f"{prop} tier={tier} seed={seed}: theorems {lean.discharged}/{lean.obligations}, cases {res.evaluations} "
